@@ -221,6 +221,8 @@ typedef struct e1_cfg {
     int  (*enabled)(int ev);               /* may be NULL */
     void (*apply)(int ev);                 /* run the real code + oracles */
     void  *model; size_t model_size;       /* reference-model state: part of key and snapshot */
+    size_t state_size;                     /* if non-zero: compact custom state instead of world snapshots (no allocation may happen in apply) */
+    void (*save)(uint8_t *buf); void (*restore)(const uint8_t *buf);
     size_t (*extra_key)(uint8_t *out, size_t cap);   /* optional addition to the key */
     int    no_heap_key, no_model_key;      /* timed engines: the key is extra_key() alone (time-abstracted) */
     uint64_t (*obs_hash)(void);            /* observation of a transition when it makes no port calls */
